@@ -19,7 +19,7 @@ class C10(GProp):
     files = ['tephra-combinator/src/bracket.rs']
     rule = ('all token strings up to the tier bound over {three bracket kinds, plain token, separator, whitespace (filtered), '
             'rejected char} x every non-empty ordered subset of kinds passed to the combinator x abort sets (incl. sets that contain bracket tokens of passed and of other kinds) x the four bracket '
-            'combinators x sink on/off, plus seeded random deeper nestings, and repetitions that invoke the same bracket parser object again after it failed; inner parsers that read less than, exactly, or more '
+            'combinators x sink on/off, plus seeded random deeper nestings, deep well-nested texts (depth up to 8, same-kind runs up to 5, at most one dropped / stray / replaced bracket, tokens before the first open bracket and behind the partner), and repetitions that invoke the same bracket parser object again after it failed; inner parsers that read less than, exactly, or more '
             'than the bracket contents; classification (matched/none/unopened/unclosed/mismatch), pair index, value and the '
             'token following the partner are compared with a python reference stack matcher; non-trivial = >= 2 bracket tokens '
             'of >= 2 kinds; distinct by case')
@@ -72,6 +72,30 @@ class C10(GProp):
                 out.append(parsegen.parse_case('c%d' % n, [x for x in t if x != 'bang'], g, sink=0))
                 continue
             add(t, kinds, r.choice([[], ['Comma'], ['A'], ['B', 'Comma'], ['RP'], ['RK', 'Comma'], ['LP'], ['LC', 'RC'], ['LK', 'A']]), r.choice(VARIANTS), r.choice(inners), r.below(2))
+        # deep, well-nested texts (a matched outermost pair nearly always exists) with at most one local perturbation, long
+        # same-kind runs, tokens in front of the first open bracket and behind the partner: the partner is found by balanced
+        # nesting across ALL kinds, the run-length bookkeeping of same-kind runs is exercised, and the inner parser stops early
+        for i in range(500 if tier == 'quick' else 8000):
+            def nest(d):
+                if d <= 0 or r.chance(1, 5):
+                    return [r.choice(['a', 'a', 'comma', 'sp'])] * r.below(3)
+                k = r.below(3)
+                run = 1 + (r.below(4) if r.chance(1, 3) else 0)       # k k k ... of the same kind
+                body = nest(d - 1)
+                for _ in range(r.below(2)):
+                    body = body + nest(d - 1)
+                return [SYMS[PAIRS[k][0]]] * run + body + [SYMS[PAIRS[k][1]]] * run
+            t = r.choice([[], ['a'], ['sp'], ['b', 'sp']]) + nest(3 + r.below(5)) + r.choice([[], ['a'], ['sp', 'a'], ['comma']]) + (nest(2) if r.chance(1, 3) else [])
+            if r.chance(1, 3) and t:
+                j = r.below(len(t))
+                c = r.below(3)
+                if c == 0: t = t[:j] + t[j + 1:]                                         # drop one token (often a bracket)
+                elif c == 1: t = t[:j] + [SYMS[PAIRS[r.below(3)][r.below(2)]]] + t[j:]    # insert a stray bracket
+                else: t = t[:j] + [SYMS[PAIRS[r.below(3)][1]]] + t[j + 1:]                # replace by a close bracket
+            t = t[:40]
+            kinds = r.choice([[0, 1, 2], [0, 1, 2], [2, 1, 0], [0, 1], [1, 2], [0, 2]])
+            add(t, kinds, r.choice([[], [], ['Comma'], ['B']]), r.choice(VARIANTS),
+                r.choice(inners + [['repeat', 0, 'inf', ['any', 'A', 'Comma', 'LP', 'LK', 'LC', 'RP', 'RK', 'RC']], ['repeat', 0, 2, ['any', 'A', 'LP', 'LK', 'LC']]]), r.below(2))
         return out
 
     def nontrivial(self, ct, it):
